@@ -185,6 +185,7 @@ type EncPlan struct {
 	BytesBuf bool           `json:"bytes_buffer_writer"`
 	Write    core.WritePlan `json:"write"`
 	PtrEvery int            `json:"ptr_every"`
+	Past     int            `json:"encoder_past,omitempty"` // 0 fresh Encoder; else one that was used before (1 bytes.Buffer, 2 plain writer, 3 plain writer that failed) with output still buffered, then Reset
 	Deep     int            `json:"deep,omitempty"` // containers opened by tokens before Calls (deep mode)
 	DeepObj  bool           `json:"deep_obj,omitempty"`
 	// SweepFaults (c07): additionally place one write fault of every kind at EVERY byte of the output.
@@ -193,6 +194,32 @@ type EncPlan struct {
 	Exhaustive int `json:"exhaustive_suffix_len,omitempty"`
 
 	outLen int
+}
+
+// newEncWithPast returns an Encoder for w: a fresh one, or one whose previous
+// use was abandoned half-way (bytes still buffered, or refused by its writer)
+// and that was then Reset onto w. Either way w must receive the same bytes.
+func newEncWithPast(past int, w io.Writer, opts ...jsontext.Options) *jsontext.Encoder {
+	if past == 0 {
+		return jsontext.NewEncoder(w, opts...)
+	}
+	var junk io.Writer = new(bytes.Buffer)
+	switch past {
+	case 2:
+		junk = core.NewSimWriter(core.WritePlan{})
+	case 3:
+		junk = core.NewSimWriter(core.WritePlan{FaultAt: []core.WriteFault{{Off: 3, Kind: core.WShort}}})
+	}
+	e := jsontext.NewEncoder(junk, jsontext.AllowDuplicateNames(true))
+	if past == 3 {
+		e.WriteToken(jsontext.String("a top-level value of which the old writer takes three bytes"))
+	}
+	e.WriteToken(jsontext.BeginObject)
+	e.WriteToken(jsontext.String("left-open"))
+	e.WriteToken(jsontext.BeginArray)
+	e.WriteValue(jsontext.Value(`{"a":[1,2,3]}`))
+	e.Reset(w, opts...)
+	return e
 }
 
 // Enc is the encoder scenario.
@@ -400,6 +427,7 @@ func (sc *Enc) plan(t *core.Tape, env *Env) *EncPlan {
 	ps := t.S("plan")
 	p.Opts = genEncOpts(ps, true)
 	p.BytesBuf = ps.Chance(1, 4)
+	p.Past = ps.Weighted(5, 1, 1, 1)
 	switch ps.Weighted(5, 2, 2, 1) {
 	case 1:
 		p.PtrEvery = 2 + ps.Draw(6)
@@ -806,7 +834,7 @@ func (sc *Enc) runFaulty(p *EncPlan, env *Env, report reportFn) {
 		}
 		return sw.Got
 	}
-	e := jsontext.NewEncoder(w, opts...)
+	e := newEncWithPast(p.Past, w, opts...)
 	for i, c := range p.Calls {
 		err := encDo(e, c)
 		st.Steps++
@@ -923,7 +951,7 @@ func (sc *Enc) runMixed(p *EncPlan, env *Env, report reportFn) {
 		}
 		return sw1.Got
 	}
-	e := jsontext.NewEncoder(w1, opts...)
+	e := newEncWithPast(p.Past, w1, opts...)
 	m := refjson.NewModel(refjson.Opts{AllowInvalidUTF8: o.AllowUTF8, AllowDuplicateNames: o.AllowDup})
 	fm := refjson.NewFormatter(o.fopts())
 	modelable := o.modelable()
